@@ -624,14 +624,21 @@ class Messenger(Connection):
 
         # Handle as many messages as are present
         while self.__rx_buf:
+            probe_data = self.__rx_buf
             if self._in_conn:
                 msgcls = messages.MessageHead
             else:
                 msgcls = contact.Head
+                # The contact header has a fixed size, so wait for all of it
+                # and keep any following octets as future data
+                head_size = len(contact.MAGIC_HEAD) + 2
+                if len(probe_data) < head_size:
+                    return
+                probe_data = probe_data[:head_size]
 
             # Probe for full message (by reading back encoded data)
             try:
-                pkt = msgcls(self.__rx_buf)
+                pkt = msgcls(probe_data)
                 pkt_data = bytes(pkt)
             except formats.VerifyError as err:
                 self._logger.debug('Decoded partial packet: %s', err)
